@@ -81,6 +81,18 @@ class TableM:
         self.grow(r, c)
         self.rows[r][c] = v
 
+    def _forget_positional(self, axis: int, at: int) -> None:
+        """A structural edit at index ``at``: whether sizes, styles and strokes travel with their rows/columns is not
+        specified by any property, so the model keeps no opinion about what sits at or beyond the edit (what the library
+        reports there must still survive save/reopen: the model-free oracles see to that)."""
+        sizes, seqs = (self.row_h, self.row_h_seq) if axis == 0 else (self.col_w, self.col_w_seq)
+        for k in [k for k in sizes if k >= at]:
+            del sizes[k]
+        for k in [k for k in seqs if k >= at]:
+            del seqs[k]
+        if self.styles or self.hedge or self.vedge:
+            self.opaque_look = True
+
     def add_row(self, n: int, at, default) -> None:
         nc = self.ncols
         new = [[default] * nc for _ in range(n)]
@@ -89,6 +101,7 @@ class TableM:
         else:
             self.rows[at:at] = new
             self._shift_merges(0, at, n)
+            self._forget_positional(0, at)
 
     def add_col(self, n: int, at, default) -> None:
         for row in self.rows:
@@ -98,12 +111,14 @@ class TableM:
                 row[at:at] = [default] * n
         if at is not None:
             self._shift_merges(1, at, n)
+            self._forget_positional(1, at)
 
     def del_row(self, n: int, at) -> None:
         if at is None:
             at = self.nrows - n
         del self.rows[at : at + n]
         self._shift_merges(0, at, -n)
+        self._forget_positional(0, at)
 
     def del_col(self, n: int, at) -> None:
         if at is None:
@@ -111,6 +126,7 @@ class TableM:
         for row in self.rows:
             del row[at : at + n]
         self._shift_merges(1, at, -n)
+        self._forget_positional(1, at)
 
     # ---- merges -------------------------------------------------------------------------------
     def _shift_merges(self, axis: int, at: int, n: int) -> None:
